@@ -8,18 +8,30 @@ from fixtures import v4 as fv4
 
 RULE = ('a case is one chunk store: T<=10 dumps, F<=8 channels, B<=6 products (4 or 12 through a full data set), four '
         'independently drawn chunkings (uneven / all size 1 / single chunk; weights_channel 2-D), per-array dump counts '
-        'differing by up to 3 (phantom chunks), a subset of chunk files deleted per array (empty .. all), a unit-step '
-        'preselection of dumps and/or channels given as raw slice bounds (None, negative, past the end, empty), loaded '
-        'through ChunkStoreVisFlagsWeights, TelstateDataSource(...).data (flags optionally from an attached sdp.flags '
-        'stream) or VisibilityDataV4; compared element by element on vis, weights, flags with the extracted model and '
-        'spec.  Non-trivial: at least one chunk absent (deleted or phantom) inside a non-empty window; distinct by '
-        '(geometry, chunkings, loss set, preselection, path).  Side checks: intersect_1d / intersect_chunks against '
-        'dask.array.rechunk.intersect_chunks, prune_axis against katdal.chunkstore._prune_chunks and the chunks of '
-        'get_dask_array.')
+        'differing by up to 3 or an array without any dump (phantom chunks), a subset of chunk files deleted per array '
+        '(empty .. all), a unit-step preselection of dumps and/or channels given as raw slice bounds (None, negative, past '
+        'the end, empty), loaded through ChunkStoreVisFlagsWeights, TelstateDataSource(...).data (flags optionally from an '
+        'attached sdp.flags stream) or VisibilityDataV4; compared element by element on vis, weights, flags with the '
+        'extracted model and spec.  HISTORIES: one reader store object serves 2-4 loads while chunk files are removed / '
+        'written (other values, over present chunks) by another store object; raw index elements (step None/1) and a '
+        'malformed stream (step 2/-1/0, integers, lists, a third element, unknown preselect keys); the same on a '
+        'DictChunkStore (arrays absent / holding only their first dumps / arriving later, every load repeated, store memory '
+        'compared afterwards).  OPTIONS: two loads (complete store, then with chunks deleted) under van_vleck off/autocorr x '
+        'stored_weights_are_scaled True/False (x applycal through a v4 data set), baseline-axis chunking.  Non-trivial: at '
+        'least one chunk absent (deleted, never written or phantom) inside a non-empty window; distinct by (geometry, '
+        'chunkings, loss set / history, preselection, path, options).  Side checks: intersect_1d / intersect_chunks against '
+        'dask.array.rechunk.intersect_chunks; _prune_chunks (per axis and as a whole on raw / malformed N-d indices), '
+        'TelstateDataSource preselect validation, get_dask_array(errors=...) block by block, _apply_data_lost, '
+        '_upgrade_chunk_info + _align_chunk_info and DictChunkStore.get_chunk against their models.')
 ASSUMPTIONS = ['chunk sizes are positive (zero-size chunks only arise from an empty preselection, where no element exists)',
                'stored values are exactly representable (small integers); weights are compared exactly',
-               'van_vleck off, stored weights already scaled (weights = weights * weights_channel)',
+               'under van_vleck / weight power scaling / applycal the elements NOT affected by a loss are compared with the '
+               'load of the complete store through the same options (same code, same inputs); lost elements with exact '
+               'constants (0, float32(bad_weight) * stored weight)',
+               'the Van Vleck lookup table is strictly increasing (only its first node and the np.interp call are tied)',
                'through VisibilityDataV4 only non-empty preselections (a data set without dumps or channels cannot be constructed)',
+               'a view store holds each array up to a chunk boundary of its dump chunking (a partly present chunk is a '
+               'malformed store: BadChunk, outside the property)',
                'dask graph assembly, numpy slicing assignment and NpyFileChunkStore file naming are exercised, not modelled']
 
 NAMES = fx.ARRAYS
